@@ -116,3 +116,11 @@ def hits_injected(a):
     h.fit(m)
     return {'row': tolist(h.scores_row_), 'col': tolist(h.scores_col_), 'raw_u': tolist(ru), 'raw_v': tolist(rv),
             'svd_u': tolist(np.abs(u0)), 'svd_v': tolist(np.abs(v0)), 'svd_s': tolist(s)}
+
+
+def rso_matvec(a):
+    """RandomSurferOperator(adjacency, seeds, damping_factor).dot(x) on a CSR matrix (the operator of piteration / lanczos / bicgstab)."""
+    from sknetwork.linalg.ppr_solver import RandomSurferOperator
+    m = mk_matrix(a['m']).astype(float)
+    op = RandomSurferOperator(m, np.array(a['seeds'], dtype=float), a['damping'])
+    return tolist(op.dot(np.array(a['x'], dtype=float)))
